@@ -21,8 +21,10 @@ string); lists of strings are comma-separated (`~` = empty list).
   readtxt <s>                         read_iterations on the given file text
   ov <cat>                            collect_overall_iterations
   rng <x> <a> <b> <n>                 x in range(a, b + 1, n)
+  par <simloc> <simname> <text>       the .par parser of parameters(): dictionary before the grid quantities ; thorns
 -/
 import AurelVerif.Model.Catalog
+import AurelVerif.Model.ParFile
 open AurelVerif.Catalog
 
 def hexVal (c : Char) : Nat :=
@@ -67,6 +69,16 @@ def resS : Except Err Result → String
 def vfS (vf : VarsAndFiles) : String :=
   if vf.isEmpty then "~" else
   ";".intercalate (vf.map fun kv => encL kv.1 ++ "=" ++ encL kv.2)
+
+def pvalS : AurelVerif.ParFile.PVal → String
+  | .int i => "I" ++ toString i
+  | .float m e => "F" ++ toString m ++ "," ++ toString e
+  | .str s => "S" ++ encS s
+
+def parS : Except Err AurelVerif.ParFile.PState → String
+  | .ok st => "ok " ++ (if st.dict.isEmpty then "~" else
+      ";".intercalate (st.dict.map fun kv => encS kv.1 ++ "=" ++ pvalS kv.2)) ++ " T " ++ encL (dedup st.thorns)
+  | .error e => "err " ++ errS e
 
 structure DState where
   T : Tables := { knownGroups := [], aurelToET := [] }
@@ -136,6 +148,8 @@ def step (st : DState) (line : String) : DState × String :=
   | ["rng", x, a, b, n] =>
     (st, match rangeMem x.toInt! a.toInt! b.toInt! n.toInt! with
       | .ok true => "1" | .ok false => "0" | .error e => "err " ++ errS e)
+  | ["par", loc, name, txt] =>
+    (st, parS (AurelVerif.ParFile.parseParText (AurelVerif.ParFile.initDict (decS loc) (decS name)) (decS txt)))
   | _ => (st, "bad-op")
 
 partial def loop (h : IO.FS.Stream) (st : DState) : IO Unit := do
